@@ -16,8 +16,10 @@ CORR   the real jira_checks(job) on a stub job: SimpleNamespace(settings = dict 
        cascade = SimpleNamespace(dst_branches = the real branch objects of a real BranchCascade run,
        target_versions = its list))).  The stub has no repository handle and no host handle: any attempt of
        the gate to touch either is an AttributeError, i.e. a reported divergence.
-       bert_e.workflow.gitwaterflow.jira.jira_api.JiraIssue is replaced in-process by a table lookup that
-       raises jira.exceptions.JIRAError(status_code=404) for an absent key (or the scripted status).
+       the third-party client class JIRA, as bert_e.lib.jira imports it, is replaced in-process by a table lookup
+       that raises jira.exceptions.JIRAError(status_code=404) for an absent key (or the scripted status); the real
+       JiraIssue of bert_e/lib/jira.py runs on top of it, and successive cases of one worker process look the same
+       ticket keys up with different contents (an issue edited between two evaluations).
        The command-line bypass goes through the real gwf.setup / Reactor.init_settings, the per-author one
        through the real PrAuthorsOptions.deserialize.  Bulk workers render the message templates through
        one cached jinja2 Environment (the original builds one per raise); corpus, scripted streams and a
@@ -309,21 +311,25 @@ def set_render(fast):
 
 
 class _Server:
-    """What replaces bert_e.lib.jira.JiraIssue: a table key -> issue | HTTP status."""
+    """The Jira server: what replaces the third-party client class `JIRA` as bert_e.lib.jira sees it (the real
+    JiraIssue of bert_e/lib/jira.py runs on top of it): a table key -> issue | HTTP status, consulted at the moment of
+    the call - an issue edited between two evaluations is seen edited."""
     table = {}
     expect = None      # (account_url, email, token) the gate must pass on
 
-    def __init__(self, account_url, issue_id, email, token):
-        from jira.exceptions import JIRAError
+    def __init__(self, account_url, basic_auth=None, **_kw):
+        email, token = basic_auth if basic_auth else (None, None)
         if _Server.expect is not None and (account_url, email, token) != _Server.expect:
-            raise AssertionError('JiraIssue called with %r' % ((account_url, email, token),))
+            raise AssertionError('JIRA client built with %r' % ((account_url, email, token),))
+
+    def issue(self, issue_id, *a, **kw):
+        from jira.exceptions import JIRAError
         ent = _Server.table.get(issue_id)
         if ent is None:
             raise JIRAError(status_code=404, text='Issue Does Not Exist')
         if isinstance(ent, int):
             raise JIRAError(status_code=ent, text='scripted failure')
-        self.key = ent.key
-        self.fields = ent.fields
+        return SimpleNamespace(key=ent.key, fields=ent.fields)
 
 
 def _issue(key, typ, versions):
@@ -341,7 +347,9 @@ def _patch():
     global _PATCHED
     if not _PATCHED:
         import bert_e.workflow.gitwaterflow.jira as J
-        J.jira_api.JiraIssue = _Server
+        if not hasattr(J.jira_api, 'JIRA'):
+            raise ValueError('bert_e.lib.jira no longer talks to the server through the JIRA client class')
+        J.jira_api.JIRA = _Server
         _PATCHED = True
 
 
